@@ -133,4 +133,24 @@ PROPS = {
                       "last detach the resource is gone and the name reusable; plus the offset conservation of the data path (also part of C03).",
         "level_note": "trusted: ixmc scheduler incl. its mutex model; bounded: <=3 threads, <=4 steps each, PB<=2 quick (1 for 3 threads) / <=3 thorough",
     },
+    "C14": {
+        "level": "exploration",
+        "technique": "bounded-exhaustive enumeration of operation histories with relocation of the backing memory block at every point (old block made inaccessible), differential oracle against an un-relocated twin and a reference model, scan for embedded absolute addresses",
+        "legs": [{"ws": "seq", "bin": "h_reloc"}],
+        "rule": "see coverage.legs[0].rule",
+        "assumptions": ["single-threaded histories; relocation = byte copy of the whole block to a different address, the old block stays mapped PROT_NONE", "the shm allocators are observed through offsets; growing a segment through a foreign mapping is outside their contract and not exercised", "bounded: capacities 1..3 (bit set also 9), depth 4 quick / 5-6 thorough, at most 2 relocations per history"],
+        "design_ref": "DESIGN.md §3.3, §4 C14",
+        "level_text": "Every relocatable structure (vector, queue, string, slot map, flat map, both index queues, both index sets, bit sets, registry container, used-chunk list, shm pool and bump allocator) is driven through ALL operation histories up to the depth with a relocation of its memory block possible after every prefix; after every step its observations must equal an un-relocated twin and a reference model, no word of the block may hold an address inside any block, and a stray absolute pointer faults on the protected old block.",
+        "level_note": "trusted: seqx enumeration, the reference models; bounded as stated; concurrency is out of scope here (C03/C09/C10)",
+    },
+    "C16": {
+        "level": "exploration",
+        "technique": "bounded-exhaustive enumeration of all operation sequences up to a depth over small value domains for every container kind x storage flavour x capacity, step-by-step comparison with std reference models, drop-tracking elements",
+        "legs": [{"ws": "seq", "bin": "h_containers"}],
+        "rule": "see coverage.legs[0].rule",
+        "assumptions": ["depth 4-5 quick / 6 thorough; value domains of 1-3 values; capacities 0..4", "the 'random sequences of length 10^4' clause of the quantifier is sampling and not part of this check", "heap flavours use a poisoning test allocator so that reads of uninitialised memory are deterministic"],
+        "design_ref": "DESIGN.md §3.3, §4 C16",
+        "level_text": "For Vec, Queue (incl. overflowing push), SlotMap, FlatMap, String and RelocatableOption in the inline, heap and relocatable flavours, capacities 0..4, EVERY operation sequence up to the depth over the full trait surface is executed on the real container and compared after every step with the std reference model (return values, lengths, full content, error variants, unchanged state after a rejected operation); every element's drop count is checked after every history.",
+        "level_note": "trusted: seqx enumeration, the reference models; bounded as stated",
+    },
 }
